@@ -291,7 +291,18 @@ func runCopyCase(k *CopyCase) (verdict string, skipped bool) {
 	if d := model.Diff(S, got); d != "" {
 		return "destination under the reference decoder differs from the source: " + d, false
 	}
-	_ = rcat
+	// the source's own denotation under the independent decoder (when it accepts the source)
+	var refS []*model.Value
+	if k.SrcBinary {
+		refS, err = refbin.Decode(src, &refbin.DecodeOpts{Catalog: rcat})
+	} else {
+		refS, err = reftext.Parse(string(src), &reftext.ParseOpts{Catalog: rcat})
+	}
+	if err == nil {
+		if d := model.DiffOpt(refS, got, model.EqOpts{}); d != "" {
+			return "destination differs from what the source denotes under the independent decoder: " + d, false
+		}
+	}
 	return "", false
 }
 
